@@ -190,6 +190,8 @@ func runC07(c *core.Ctx) {
 	runR710(c, "R7.10")
 	c.Rule("R7.11", "every multi-byte integer put on or taken off a memcached wire (client side and backend side) is in network byte order", 8)
 	runR711(c, "R7.11")
+	c.Rule("R7.12", "the protocol of a connection is the one whose disambiguator recognised the first byte: parser and responder come from one component, selected under that component's own CanParse (or the nothing-matched fallback)", 2)
+	runR712(c, "R7.12")
 	c.Rule("R7.9", "a request header has one owner: a decoder handed the header its caller releases never puts it back into the pool itself (a header released twice is given to two connections, whose requests then overwrite each other's length fields)", 2)
 	runR147(c, "R7.9", poolWrappers(c), "protocol")
 }
@@ -1138,4 +1140,106 @@ func touchesStream(fn *ssa.Function) bool {
 		}
 	})
 	return found
+}
+
+// runR712 (R7.12): the protocol a connection speaks is the one whose disambiguator recognised its first byte. In the
+// per-connection goroutine every (request parser, responder) pair is created from ONE protocol component, in a block
+// reached only when that component's own CanParse answered true - or in the fallback taken when no component matched.
+// A parser of one protocol paired with the responder of another answers binary requests in text (or the reverse).
+func runR712(c *core.Ctx, rule string) {
+	las := c.P.Func("server", "ListenAndServe")
+	if las == nil {
+		c.Undecided(rule, "server.ListenAndServe#protocol-selection", "-", "anchor not found")
+		return
+	}
+	n := 0
+	for _, fn := range las.AnonFuncs {
+		type sel struct {
+			parser, responder *ssa.Call
+		}
+		byBlock := map[*ssa.BasicBlock]*sel{}
+		var order []*ssa.BasicBlock
+		ssax.Instrs(fn, func(ins ssa.Instruction) {
+			call, ok := ins.(*ssa.Call)
+			if !ok || !call.Call.IsInvoke() || !strings.HasSuffix(types.TypeString(call.Call.Value.Type(), nil), "protocol.Components") {
+				return
+			}
+			s := byBlock[call.Block()]
+			if s == nil {
+				s = &sel{}
+				byBlock[call.Block()] = s
+				order = append(order, call.Block())
+			}
+			switch call.Call.Method.Name() {
+			case "NewRequestParser":
+				s.parser = call
+			case "NewResponder":
+				s.responder = call
+			}
+		})
+		counts := map[string]int{}
+		// the "some component matched" flag: a bool phi that receives true from a block holding a selection
+		isMatchedFlag := func(v ssa.Value) bool {
+			phi, ok := v.(*ssa.Phi)
+			if !ok {
+				return false
+			}
+			for i, e := range phi.Edges {
+				if k, isC := ssax.ConstInt(e); isC && k == 1 {
+					if s := byBlock[phi.Block().Preds[i]]; s != nil && s.parser != nil {
+						return true
+					}
+				}
+			}
+			return false
+		}
+		for _, b := range order {
+			s := byBlock[b]
+			if s.parser == nil && s.responder == nil {
+				continue
+			}
+			n++
+			key := ordinalKey(counts, "server.ListenAndServe$goroutine#protocol-selection")
+			pos := c.P.Pos(b.Instrs[0].Pos())
+			if s.parser != nil {
+				pos = c.P.Pos(s.parser.Pos())
+			}
+			var bad []string
+			if s.parser == nil || s.responder == nil {
+				bad = append(bad, "a request parser and a responder are not created together")
+			} else if s.parser.Call.Value != s.responder.Call.Value {
+				bad = append(bad, "the request parser and the responder are created from different protocol components")
+			}
+			guarded := false
+			for _, ec := range ssax.DomConds(b) {
+				if ec.True {
+					for _, d := range ssax.Defs(ec.Cond) {
+						ex, ok := d.(*ssa.Extract)
+						if !ok || ex.Index != 0 {
+							continue
+						}
+						cp, ok := ex.Tuple.(*ssa.Call)
+						if !ok || !cp.Call.IsInvoke() || cp.Call.Method.Name() != "CanParse" {
+							continue
+						}
+						for _, dd := range ssax.Defs(cp.Call.Value) {
+							if nd, ok := dd.(*ssa.Call); ok && nd.Call.IsInvoke() && nd.Call.Method.Name() == "NewDisambiguator" && s.parser != nil && nd.Call.Value == s.parser.Call.Value {
+								guarded = true
+							}
+						}
+					}
+				} else if isMatchedFlag(ec.Cond) {
+					guarded = true // the fallback: nothing matched
+				}
+			}
+			if !guarded {
+				bad = append(bad, "the selection is not guarded by the component's own CanParse (nor is it the nothing-matched fallback)")
+			}
+			c.Check(len(bad) == 0, rule, key, pos, "parser and responder of one component, selected by its own disambiguator (or the fallback)",
+				strings.Join(bad, "; ")+": the first byte no longer decides which protocol the connection is parsed and answered in")
+		}
+	}
+	if n == 0 {
+		c.Undecided(rule, "server.ListenAndServe#protocol-selection", c.P.Pos(las.Pos()), "no protocol selection found in the per-connection goroutine")
+	}
 }
